@@ -79,6 +79,15 @@ def gen_schedule(r, n_clients, keys, engine, faults=False, reads=True, exhaustiv
         if reads and r.random() < 0.1:
             lines.append("rev")      # the header of a read is the committed revision: wait for the sequencer
             lines.append("get %s 0" % hx(r.choice(keys)))
+        if reads and r.random() < 0.12:
+            # a point read at an explicit revision at / around the committed one while writes are in flight
+            lines.append("rev")
+            lines.append("get %s %s" % (hx(r.choice(keys)), r.choice(["c", "c", "c+1", str(INIT + npre + r.randint(0, n_clients))])))
+        if reads and r.random() < 0.12:
+            # a range read at an explicit revision that may lie above the committed one (e.g. the header of a
+            # write acknowledged while an earlier one is still in flight)
+            lines.append("rev")
+            lines.append("list %s %s %d 0" % (hx(PREFIX + b"/"), hx(PREFIX + b"0"), INIT + npre + r.randint(0, n_clients)))
     # drain: every client to completion, then quiescence
     for i in range(n_clients):
         for _ in range(4):
@@ -188,7 +197,7 @@ def oracle_c02(case):
         if o and o[1] == "cf" and len(o) > 3 and o[3] != "-":
             kv = hist.parse_kv(o[3])
             if kv and kv[2] > int(o[2]):
-                return ("%s: header %s < data revision %d" % (rq.cid, o[2], kv[2]), "header<data")
+                return ("%s: header %s < data revision %d" % (rq.cid, o[2], kv[2]), "header-lt-data")
     return hist.check_headers(case)
 
 
